@@ -34,7 +34,15 @@ br_ssl_client_zero(br_ssl_client_context *cc)
 	 * architectures, a direct memset() will work, be faster, and
 	 * use a lot less code.
 	 */
+#ifdef BR_VERIF
+	BR_VERIF_GUARD(cc->eng.verif_guard_pad0, 0);
+	BR_VERIF_GUARD(cc->eng.verif_guard_pad1, 0);
+#endif
 	memset(cc, 0, sizeof *cc);
+#ifdef BR_VERIF
+	BR_VERIF_GUARD(cc->eng.verif_guard_pad0, 1);
+	BR_VERIF_GUARD(cc->eng.verif_guard_pad1, 1);
+#endif
 }
 
 /* see bearssl_ssl.h */
